@@ -78,8 +78,8 @@ def make_cases(run):
             desc = S.gen_synthetic(rng, max_pus=32)
         misc_ok = rng.random() < 0.5
         cfg = (["filter 19 0"] if misc_ok else []) + (["filter 13 0"] if rng.random() < 0.2 else [])
-        if rng.random() < 0.2:
-            cfg.append("flags %d" % rng.choice([1, 512, 8, 1 | 8, 128, 256]))
+        if rng.random() < 0.35:
+            cfg.append("flags %d" % rng.choice([1, 1, 1, 512, 8, 1 | 8, 128, 256]))
         cases.append(("syn%d:%s" % (i, desc), cfg + ["src synthetic " + desc], G.gen_history(rng, misc_ok), "synthetic"))
     xmls = S.xml_corpus()
     if quick:
@@ -307,7 +307,7 @@ def check(run, replay=None):
                 h2 = shrink(exe, drv, cfg, hist, key, meta)
             run.violation(key, what + "   [case %s]" % name, "\n".join(script_of(cfg, h2)) + "\n--- output\n" + "\n".join(l[:400] for l in r["lines"] if not l.startswith(("share ", "class ", "allowed ")))[:6000],
                           no_input=corr and not spec_broken)
-    for op in ("robj", "misc", "gobj", "distadd", "disthet", "distrm", "distrmdepth", "distfail", "disthandle", "mreg", "mset", "mseto", "mseti", "kobj", "kinfo", "kinfoclr", "subtype", "info", "infoclr", "tinfo", "tinfoclr", "refresh", "ud", "udclr", "restrict"):
+    for op in ("robj", "misc", "gobj", "distadd", "disthet", "distrm", "distrmdepth", "distfail", "disthandle", "mreg", "mset", "mseto", "mseti", "kobj", "kinfo", "kinfoclr", "subtype", "allowobj", "allownode", "allow", "info", "infoclr", "tinfo", "tinfoclr", "refresh", "ud", "udclr", "restrict"):
         n = sum(1 for (_, _, hist, _) in cases for l in hist if (" " + op + " ") in (" " + l + " "))
         if n:
             run.bump("op:" + op, n)
